@@ -80,8 +80,9 @@ def ob_capture_set(r, tier, seed, depth, forms, inner=('EVar', 'ELet', 'EBinary'
         src, got, want, nb = p.value
         if want: r.nontrivial += 1
         if sorted(got) != sorted(want) or nb != 0:
-            if not any(f.key == 'wrong-capture-set' for f in r.findings):
-                r.findings.append(Finding('wrong-capture-set', 'closure body `%s` in scope {x, y}: captured %s, free variables %s%s' % (src, got, want, '' if nb == 0 else '; the bound-variable stack is not restored (%d left)' % nb), {'body': src, 'captured': got, 'free': want}, True, 'capture map filled by the real lift::collect_captured MIR'))
+            ckey = 'missing-capture' if set(want) - set(got) else 'wrong-capture-set'
+            if not any(f.key == ckey for f in r.findings):
+                r.findings.append(Finding(ckey, 'closure body `%s` in scope {x, y}: captured %s, free variables %s%s' % (src, got, want, '' if nb == 0 else '; the bound-variable stack is not restored (%d left)' % nb), {'body': src, 'captured': got, 'free': want}, True, 'capture map filled by the real lift::collect_captured MIR'))
         elif len(r.samples) < 3 and want: r.samples.append({'body': src, 'captured': got})
 
 def obligations():
